@@ -39,7 +39,7 @@ class C17(InterpProp):
 
     def knobs(self, rnd, tier):
         return gen.Knobs(p_internal=0.3, p_history=0.5, max_states=rnd.choice([6, 10, 16]), time_preds=0.1,
-                         no_state_names=True, history_focus=0.4, twins=0.25)
+                         no_state_names=True, history_focus=0.4, twins=0.25, atwins=rnd.choice([0, 0, 0.15]))
 
     # ---- generation -------------------------------------------------------------------------------
     def gen_case(self, rnd, tier):
